@@ -45,7 +45,7 @@ package server
 //@ emits RolloutSplit(s, percentage)
 //@ assigns s.rolloutController
 //@ ensures[C17] no_timed_wait: now == old(now)
-//@ ensures[C10] rejected: old(s.rollout) == nil ==> err == ErrorRolloutTargetNotSet && s.rolloutController == old(s.rolloutController)
+//@ ensures[C10,C06] rejected: old(s.rollout) == nil ==> err == ErrorRolloutTargetNotSet && s.rolloutController == old(s.rolloutController)
 //@ ensures[C10] accepted: old(s.rollout) != nil ==> err == nil && fresh(s.rolloutController) && s.rolloutController.Percentage == percentage && s.rolloutController.PercentageSplitPoint == fpSplit(percentage) && s.rolloutController.Allowlist == allowlist
 
 //@ func (*server.Service).StopRollout
